@@ -48,6 +48,10 @@ CHECKS = {
   text="Bounded exhaustive enumeration: every text of <= 3 (quick) / 4 (thorough) code units per source encoding (UTF-16 LE/BE incl. surrogate pairs, lone surrogates and a trailing odd byte; UTF-8 incl. malformed sequences; latin1; shift_jis) under 17 BOM / --encoding combinations (mark overriding a conflicting label, --encoding none with a mark), also aligned to the 8 KiB transcoding buffer at offsets -6..6; x search_slice, search_path with/without mmap, search_reader with roll-buffer capacity 1/3/8 x every composition of the input length as read sizes; x four patterns (one multi-line). Reference: encoding_rs applied in the harness, then a plain slice search of the UTF-8 result; full Sink event streams compared.",
   note="Trusted: encoding_rs as the meaning of each encoding. Three open known findings, all inside the encoding_rs_io / encoding_rs dependencies (pending bytes dropped after EOF on tiny reads; UTF-8 mark not overriding a label; incomplete trailing sequence dropped), each recognised by a counterfactual switch of the reference.",
   tech="bounded exhaustive enumeration of texts x encodings x strategies x read/buffer histories against a reference transcoder"),
+ "C19": dict(cat="exploration", ref="DESIGN.md §4 C19",
+  text="Bounded exhaustive enumeration in two layers: (1) every replacement template that is a token string of length <= 3 (quick) / 4 (thorough) over a 19-token grammar ($, $$, $N, ${N}, $name, ${name}, unterminated and empty braces, ...) x 21 patterns with optional / nested / named / empty-matching groups x 6 haystacks: the matcher's interpolation against regex::bytes::Captures::expand; (2) the standard printer with -r for 23 templates x the patterns x every input over {a,b,-,\\n} up to length 4/5 x {plain, -o, --crlf, --column, -v -C1, -U}: printed output against per-line replace-all with the terminator held aside, per-match expansion under -o, lines without a match unaltered.",
+  note="Trusted: the regex crate version in Cargo.lock as the specification of the replacement syntax. Two open known findings with counterfactual switches (braced reference name charset — pinned by the repository's own unit tests; a replacement ending in a newline swallows the line's terminator).",
+  tech="bounded exhaustive enumeration of templates x patterns x inputs against the regex library as reference"),
 }
 
 NOT_YET = "check not built yet in this round (planned in DESIGN.md §10); not claimed until its engine is committed"
